@@ -69,6 +69,11 @@ type Sim struct {
 	Steps    int
 	Switches int
 	MaxSteps int
+	// Points counts scheduling points passed (yields); MaxPoints bounds a run
+	// in which a task spins without ever blocking.
+	Points    int64
+	MaxPoints int64
+	sameRun   int // consecutive grants to the same task while others were runnable
 	// SwitchDen: a grant gets quantum 0 (switch at the next scheduling
 	// point) with probability 1/SwitchDen, else a quantum up to MaxQuantum.
 	SwitchDen  int
@@ -139,7 +144,7 @@ var S *Sim
 // New creates a simulation. If replay is non-nil choices are taken from it,
 // otherwise from a PCG seeded with seed.
 func New(seed uint64, replay []uint32) *Sim {
-	s := &Sim{rng: rand.New(rand.NewPCG(seed, 0x5eed5eed)), MaxSteps: 400000, SwitchDen: 4, MaxQuantum: 20,
+	s := &Sim{rng: rand.New(rand.NewPCG(seed, 0x5eed5eed)), MaxSteps: 400000, MaxPoints: 60000000, SwitchDen: 4, MaxQuantum: 20,
 		mwait: map[any][]*Task{}, cwait: map[*sync.Cond][]*Task{}, once: map[*sync.Once]*onceSt{},
 		Faults: map[string]int{}, Probes: map[string]int{}}
 	if replay != nil {
@@ -284,7 +289,7 @@ func (s *Sim) Run(root func()) {
 			s.mu.Unlock()
 			return
 		}
-		if s.Steps >= s.MaxSteps {
+		if s.Steps >= s.MaxSteps || s.Points >= s.MaxPoints {
 			s.StepCap = true
 			s.mu.Unlock()
 			return
@@ -380,6 +385,18 @@ func (s *Sim) Run(root func()) {
 			s.inSched = false
 		}
 		t := rs[s.Choose(len(rs))]
+		// fairness guard: a tape that keeps choosing the same task (all zeros
+		// after shrinking) must not starve the others behind a task that
+		// never blocks
+		if t == s.last && len(rs) > 1 {
+			s.sameRun++
+			if s.sameRun > 64 {
+				t = rs[1+(s.Steps%(len(rs)-1))]
+				s.sameRun = 0
+			}
+		} else {
+			s.sameRun = 0
+		}
 		q := s.chooseDraw(s.MaxQuantum+2, func(r *rand.Rand) int {
 			if r.IntN(s.SwitchDen) == 0 {
 				return 1
@@ -563,7 +580,8 @@ func Yield(site int) {
 	}
 	t := s.self()
 	t.site = site
-	if t.quantum > 0 {
+	s.Points++
+	if t.quantum > 0 && s.Points < s.MaxPoints {
 		t.quantum--
 		return
 	}
